@@ -103,5 +103,31 @@ Eval vm_compute in (mismatches (fun p => let '(a,c) := fst p in map (fun k => ar
     ctx.tie("constructors/shape-argument forms + arange", "correspondence", len(rows) + len(ar), len(distinct) + len(ar), mism, exhaustive=True,
             note="ones/zeros/empty/rand/randn on every varargs / tuple / list form with sizes in 0..3 up to rank 3 plus malformed forms; arange on a grid")
     ctx.sample({"ctor": "ones", "args": repr(forms[9]), "shape": rows[9][1]})
+    # ---- operator forms with an ndarray on the left: NumPy must defer to Tensor's reflected operators -----------------
+    import operator
+    nd_bad, nd_cases = [], 0
+    for shape_a, shape_b in [((2, 3), (2, 3)), ((3,), (2, 3)), ((2, 2), (2, 2)), ((1,), (2, 1))]:
+        a = np.arange(1, 1 + int(np.prod(shape_a)), dtype=np.float64).reshape(shape_a)
+        b = np.arange(2, 2 + int(np.prod(shape_b)), dtype=np.float64).reshape(shape_b)
+        for opname, fn in (("+", operator.add), ("-", operator.sub), ("*", operator.mul), ("/", operator.truediv), ("@", operator.matmul)):
+            if opname == "@" and not (len(shape_a) == 2 and len(shape_b) == 2 and shape_a[1] == shape_b[0]):
+                continue
+            nd_cases += 1
+            t = sg.Tensor(b.copy(), requires_grad=True)
+            try:
+                r = fn(a, t)
+            except Exception as ex:
+                nd_bad.append((opname, shape_a, shape_b, "raised %r" % (ex,))); continue
+            want = fn(a, b) if opname != "/" else a * b ** -1.0
+            if not isinstance(r, sg.Tensor):
+                nd_bad.append((opname, shape_a, shape_b, "result is %s (dtype %s), not a Tensor" % (type(r).__name__, getattr(r, "dtype", None))))
+            elif r.shape != want.shape or not np.allclose(r.data, want, rtol=1e-12, atol=0) or not r.requires_grad:
+                nd_bad.append((opname, shape_a, shape_b, {"shape": list(r.shape), "expected_shape": list(want.shape)}))
+    ctx.tie("operators with an ndarray left operand (reflected forms)", "correspondence", nd_cases, nd_cases,
+            [{"op": o, "ndarray": list(sa), "tensor": list(sb), "observed": w} for o, sa, sb, w in nd_bad], exhaustive=True,
+            note="ndarray (+ - * / @) Tensor must return a Tensor with NumPy's value and shape and take part in the graph")
+    for o, sa, sb, w in nd_bad[:2]:
+        ctx.witness("Tensor.__r*__ with ndarray", "reflected-ndarray", {"op": "ndarray %s Tensor" % o, "ndarray_shape": list(sa), "tensor_shape": list(sb)},
+                    "a Tensor with the NumPy value of the expression", w)
     for name, f, what in oracle_bad[:3]:
         ctx.witness("tensor." + name, "constructor", {"ctor": name, "args": repr(f)}, "shape/values/acceptance as torch.%s" % name, what)
